@@ -325,4 +325,33 @@ example : Gen.plColorNorm true (some true) none false true = (some (.arg 0 true)
 example : Gen.plColorNorm true none none false false = (some .dataMin, some .dataMax) := by decide
 example : Gen.plColorNorm false none (some false) true true = (some (.const "0.0"), some (.arg 1 false)) := by decide
 
+/-! ### the grid of panels (translated `calc_row_col_datasets`) -/
+
+theorem labels_length (m : DS) (d : String) : (m.labels d).length = m.size d := by
+  simp only [DS.labels, DS.size]
+  cases m.dim? d <;> simp
+
+/-- **panels on the source**: the translated `calc_row_col_datasets` selects, row by row and column by column in the order
+of the coordinates, exactly the slices of the model's `calcRowCol` (`c17_panels`), and reports its shape -/
+theorem c17_src_rowcol_refines {D A F M C : Type} (o : PlotOps D A F M C (Nat × String)) (ds : D) (m : DS)
+    (ho : ModelCoords o ds m) (row col : Option String) (h : (row.isSome || col.isSome) = true) :
+    (Gen.plRowCol o ds row col).map (fun g => (g.1.map (·.map (·.map fun p => (p.1, p.2.1))), g.2)) =
+      some ((calcRowCol m row col).map (·.map (·.2.2)), nRows m row, nCols m col) := by
+  simp only [Gen.plRowCol, Gen.Default.plRowCol]
+  rcases row with _ | r <;> rcases col with _ | c
+  · simp at h
+  · simp only [ho.1, calcRowCol, nRows, nCols, Option.map_some, Option.some.injEq, Prod.mk.injEq, length_mapIdx, labels_length,
+      and_true, map_cons, map_nil, mapIdx_cons, mapIdx_nil, cons.injEq]
+    apply ext_getElem <;> simp [labels_length]
+  · simp only [ho.1, calcRowCol, nRows, nCols, Option.map_some, Option.some.injEq, Prod.mk.injEq, length_mapIdx, labels_length,
+      and_true]
+    apply ext_getElem <;> simp [labels_length]
+  · simp only [ho.1, calcRowCol, nRows, nCols, Option.map_some, Option.some.injEq, Prod.mk.injEq, length_mapIdx, labels_length,
+      and_true]
+    apply ext_getElem
+    · simp [labels_length]
+    · intro i h1 h2
+      simp only [getElem_map, getElem_mapIdx]
+      apply ext_getElem <;> simp [labels_length]
+
 end PlotPrep
